@@ -409,9 +409,11 @@ func (r *recRuntime) Execute(ctx context.Context, store ledgercontroller.Store, 
 
 // Env: one ledger with its real controller over a Backend.
 type Env struct {
-	B       memstore.Backend
-	L       ledger.Ledger
-	Ctrl    *ledgercontroller.DefaultController
+	B    memstore.Backend
+	L    ledger.Ledger
+	Ctrl *ledgercontroller.DefaultController
+	// W: the controller the ops go through (Ctrl itself, or the state-tracker facade over it)
+	W       ledgercontroller.Controller
 	Strict  bool
 	machine []MachineObs
 	prev    memstore.Snap
@@ -437,8 +439,16 @@ func NewEnv(b memstore.Backend, name string, strict bool) *Env {
 	e.Ctrl = ledgercontroller.NewDefaultController(l, b.NewStore(l), parser, parser,
 		ledgercontroller.NewInterpreterNumscriptParser(nil),
 		ledgercontroller.WithSchemaEnforcementMode(mode))
+	e.W = e.Ctrl
 	e.prev = b.Snapshot(name)
 	return e
+}
+
+// NewFacadeEnv: like NewEnv, but the ops go through the REAL state tracker
+// (controllerFacade.handleState / Import) — needs a Mem with EnableSQL.
+func NewFacadeEnv(b *memstore.Mem, name string, strict bool) *Env {
+	b.EnableSQL()
+	return NewEnv(b, name, strict)
 }
 
 // BaseCtx: background context with a silent logger.
@@ -590,7 +600,7 @@ func (e *Env) Run(ctx context.Context, op Op) OpOut {
 			p := params(op, *in)
 			out.IH = ledger.ComputeIdempotencyHash(p.Input)
 			var r *ledger.CreatedTransaction
-			log, r, hit, err = e.Ctrl.CreateTransaction(ctx, p)
+			log, r, hit, err = e.W.CreateTransaction(ctx, p)
 			if r != nil {
 				ret = *r
 			}
@@ -599,26 +609,26 @@ func (e *Env) Run(ctx context.Context, op Op) OpOut {
 				TransactionID: op.ID, Metadata: metaOf(op.Meta)})
 			out.IH = ledger.ComputeIdempotencyHash(p.Input)
 			var r *ledger.RevertedTransaction
-			log, r, hit, err = e.Ctrl.RevertTransaction(ctx, p)
+			log, r, hit, err = e.W.RevertTransaction(ctx, p)
 			if r != nil {
 				ret = *r
 			}
 		case KSaveTxMeta:
 			p := params(op, ledgercontroller.SaveTransactionMetadata{TransactionID: op.ID, Metadata: metaOf(op.Meta)})
 			out.IH = ledger.ComputeIdempotencyHash(p.Input)
-			log, hit, err = e.Ctrl.SaveTransactionMetadata(ctx, p)
+			log, hit, err = e.W.SaveTransactionMetadata(ctx, p)
 		case KSaveAcMeta:
 			p := params(op, ledgercontroller.SaveAccountMetadata{Address: op.Addr, Metadata: metaOf(op.Meta)})
 			out.IH = ledger.ComputeIdempotencyHash(p.Input)
-			log, hit, err = e.Ctrl.SaveAccountMetadata(ctx, p)
+			log, hit, err = e.W.SaveAccountMetadata(ctx, p)
 		case KDelTxMeta:
 			p := params(op, ledgercontroller.DeleteTransactionMetadata{TransactionID: op.ID, Key: op.Key})
 			out.IH = ledger.ComputeIdempotencyHash(p.Input)
-			log, hit, err = e.Ctrl.DeleteTransactionMetadata(ctx, p)
+			log, hit, err = e.W.DeleteTransactionMetadata(ctx, p)
 		case KDelAcMeta:
 			p := params(op, ledgercontroller.DeleteAccountMetadata{Address: op.Addr, Key: op.Key})
 			out.IH = ledger.ComputeIdempotencyHash(p.Input)
-			log, hit, err = e.Ctrl.DeleteAccountMetadata(ctx, p)
+			log, hit, err = e.W.DeleteAccountMetadata(ctx, p)
 		case KSchema:
 			sd, serr := schemaData(op)
 			if serr != nil {
@@ -634,7 +644,7 @@ func (e *Env) Run(ctx context.Context, op Op) OpOut {
 			p := params(op, ledgercontroller.InsertSchema{Version: op.Version, Data: sd})
 			out.IH = ledger.ComputeIdempotencyHash(p.Input)
 			var r *ledger.InsertedSchema
-			log, r, hit, err = e.Ctrl.InsertSchema(ctx, p)
+			log, r, hit, err = e.W.InsertSchema(ctx, p)
 			if r != nil {
 				ret = *r
 			}
